@@ -54,6 +54,7 @@ fn probe(real_channel: bool, real_cond: bool) {
 // @bounds probe
 // @enc probe
 #[kani::proof]
+#[kani::solver(minisat)]
 #[kani::unwind(2)]
 #[kani::stub(critical_section::acquire, super::support_cs::cs_acquire)]
 #[kani::stub(critical_section::release, super::support_cs::cs_release)]
